@@ -314,6 +314,30 @@ def managed_check(pid, tier, seed):
             if pred in spec["preds"]:
                 for run, i in where:
                     violations.append((info["config"], pred, run, i))
+    extra = {}
+    if "counting" in spec.get("extra", {}).get(tier, []):
+        log("[%s] unbounded design-level argument: Apalache discharges the inductive invariant of ManagedCounting.tla ..." % pid)
+        t0 = time.time()
+        p = subprocess.run([os.path.join(ROOT, "tools", "apalache_counting.sh")], capture_output=True, text=True)
+        obs_ = re.findall(r'OBLIGATION (.*): (discharged|FAILED)', p.stdout)
+        for n, r in obs_:
+            log("[%s]   %s: %s" % (pid, n, r))
+        if p.returncode != 0 or not obs_:
+            raise ToolError("Apalache could not discharge the inductive invariant of ManagedCounting.tla: %s" % p.stdout[-500:])
+        extra["apalache"] = {"obligations": [n for n, _ in obs_], "discharged": len([1 for _, r in obs_ if r == "discharged"]),
+                             "wall_s": round(time.time() - t0, 1), "module": "ManagedCounting.tla",
+                             "scope": "any number of tasks, any max_size; no resize / close / retain"}
+        # and the bounded thread-level spec refines the abstraction
+        rcfg = os.path.join(workdir, "refine.cfg")
+        open(rcfg, "w").write(configs.cfg_text(spec["extra"]["refine_consts"], ["RefInv"], ["Refines"]))
+        shutil.copy(rcfg, os.path.join(ROOT, "spec", "MC_Refine_run.cfg"))
+        r = run_tlc(os.path.join(ROOT, "spec", "MC_Refine.tla"), os.path.join(ROOT, "spec", "MC_Refine_run.cfg"), workdir)
+        os.remove(os.path.join(ROOT, "spec", "MC_Refine_run.cfg"))
+        if not r["ok"]:
+            sys.stderr.write(r["out"][-3000:])
+            raise ToolError("ManagedPool.tla does not refine ManagedCounting.tla under the counting map")
+        log("[%s]   refinement ManagedPool => ManagedCounting checked by TLC: %d distinct states, %.1fs" % (pid, r["distinct"], r["tlc_s"]))
+        extra["refinement"] = {"states": r["distinct"], "transitions": r["generated"], "tlc_s": r["tlc_s"], "constants": spec["extra"]["refine_consts"]}
     # verdict
     rc = 0
     vdir = os.path.join(ROOT, "work", "violations")
@@ -380,6 +404,7 @@ def managed_check(pid, tier, seed):
         "monitor_events": sum(x.get("obs_events", 0) for x in infos),
         "harness_build_s": round(build_s, 1),
     }
+    cov.update(extra)
     write_evidence(pid, tier, seed, cov, time.time() - t_start, nviol, ASSUME)
     # the big tour files are scratch
     for x in infos:
